@@ -184,7 +184,8 @@ def run(ck, P):
             if len(unr) != 1 or rets != [rv] or poll:
                 bad = ("refused insertion: %d release(s) of the new source, returns %s" % (len(unr), rets), path)
     ck.ob("C09.3-DUPLICATE", rm.site("refused insert releases source"), bad is None and n > 0, "%d refusing path(s) release the new source and return the insert result" % n
-          if bad is None else bad[0], path=rules.fmt_path(rm, bad[1]) if bad else None)
+          if bad is None else bad[0], path=rules.fmt_path(rm, bad[1]) if bad else None,
+          witness=[("del_event", rm.unit, rm.name, e.block.id, e.idx) for e in rm.calls({"m_mem_unref", "m_mem_unrefp"}) if S(e.args[0]).lstrip("&") == srcv])
     for name in ("m_mod_src_register_fd", "m_mod_src_register_tmr", "m_mod_src_register_sgn", "m_mod_src_register_path", "m_mod_src_register_pid",
                  "m_mod_src_register_task", "m_mod_src_register_thresh"):
         f = P.fn(name, SRC)
@@ -250,7 +251,8 @@ def run(ck, P):
     ck.need("RM" in E and "ADD" in E, "op_type constants vanished")
     rms = [e for e in ms.calls("m_bst_itr_remove")]
     okr = bool(rms) and all(has(X.facts(ms, e), "(flag == %d)" % E["RM"]) and has(X.facts(ms, e), "stop") for e in rms)
-    ck.ob("C09.5-STOP-DROPS", ms.site("remove only on stop"), okr, "registry removal under (flag == RM && stop): %s" % okr)
+    ck.ob("C09.5-STOP-DROPS", ms.site("remove only on stop"), okr, "registry removal under (flag == RM && stop): %s" % okr,
+          witness=[("del_event", ms.unit, ms.name, e.block.id, e.idx) for e in rms])
     loops = [b for b in ms.blocks.values() if b.term and b.term.get("cond") is not None and "M_SRC_TYPE_END" in S(b.term["cond"]) or
              (b.term and b.term.get("cond") is not None and S(b.term["cond"]) == "(i < %d)" % E["M_SRC_TYPE_END"])]
     ck.ob("C09.5-STOP-DROPS", ms.site("all kinds"), bool(loops), "manage_srcs iterates over all %d source kinds" % E["M_SRC_TYPE_END"], nontrivial=False)
